@@ -672,6 +672,21 @@ def str_method(eng, world, s, m, args, kwargs, node):
         if m == "startswith" and not is_conc(z):
             return VBool(strlemmas.prefixof_terms(S(a.z), z))
         return VBool(f(S(a.z), S(z)))
+    if m == "rstrip" and len(args) == 1 and isinstance(args[0], VStr) and is_conc(args[0].z) and len(args[0].z) == 1 and not s.isbytes:
+        # s.rstrip(c) for one concrete character: s = r + c*  with r not ending in c (unique decomposition)
+        ch = args[0].z
+        zz = S(z)
+        r = sfun("py_rstrip_ch%02x" % ord(ch), STR, STR)(zz)
+        if eng.pc.need_axioms(("rstripch", ch, zz.sexpr())):
+            trail = sfun("py_rstrip_trail%02x" % ord(ch), STR, STR)(zz)
+            eng.assume(zz == z3.Concat(r, trail))
+            eng.assume(z3.InRe(trail, z3.Star(z3.Re(z3.StringVal(ch)))))
+            eng.assume(z3.Not(z3.SuffixOf(z3.StringVal(ch), r)))
+            eng.assume(z3.PrefixOf(r, zz))
+            # unfolding by one character (a theorem of the characterisation above): x.rstrip(c) == x[:-1].rstrip(c) when x ends in c, else x
+            rf = sfun("py_rstrip_ch%02x" % ord(ch), STR, STR)
+            eng.assume(z3.If(z3.SuffixOf(z3.StringVal(ch), zz), r == rf(z3.SubString(zz, 0, z3.Length(zz) - 1)), r == zz))
+        return VStr(r)
     if m in ("strip", "lstrip", "rstrip") and not args:
         return _strip_model(eng, s, m)
     if m == "split":
